@@ -80,7 +80,7 @@ type ContractDB struct {
 var clauseKinds = map[string]bool{
 	"props": true, "mode": true, "requires": true, "ensures": true, "modifies": true,
 	"loop": true, "lemma": true, "ghost": true, "panics-when": true, "search-pred": true,
-	"replay": true, "trusted": true, "assume": true, "unroll": true, "inline": true,
+	"replay": true, "replay-reader": true, "returns": true, "trusted": true, "assume": true, "unroll": true, "inline": true,
 	"reads": true, "pure": true, "let": true, "assert": true, "nosafety": true,
 	"crash-invariant": true, "frame": true, "closure": true, "bound": true,
 }
